@@ -52,6 +52,8 @@ static void one_read_all_fd(FdSource& s, const string& payload, const io::Plan& 
     io::PlanScope ps(s.fd, p, cycle);
     o = run([&] { return phosg::read_all(s.fd); });
   }
+  C->count("delivery-plans-run:read_all(fd)");
+  C->count("interposed-read-calls:read_all(fd)", io::rm().calls);
   judge("read_all_fd", s.name(), shape, payload, o, [&] { return read_case("read_all(fd)", s, payload.size(), p, cycle); });
 }
 
